@@ -18,7 +18,7 @@ from vlib.core import BUILD
 def run(chk):
     quick = chk.tier == "quick"
     chk.rule = ("22 templates x formats (seeded sample incl. all-compressed) ; for every index meeting the condition: base sizes "
-                "{2,3}, stored entries fixed, that dimension scaled; iteration counter of the IR machine compared; distinct = "
+                "{3,4}, stored entries fixed, that dimension scaled; iteration counter of the IR machine compared for the evaluate kernel and (largest scale) for the history assemble;compute; distinct = "
                 "(assignment, formats, index, scale, inputs)")
     chk.trusted += [
         "Coq 8.16.1 kernel; vm_compute",
@@ -29,7 +29,7 @@ def run(chk):
     ok = chk.regen(["IRAst.v"])
     if ok:
         chk.coq_props()
-    chk.coq_make(["spec/IRRun.vo", "model/Context.vo"])
+    chk.coq_make(["spec/IRRun.vo", "spec/IRRunHist.vo", "model/Context.vo"])
     cfg = {"seed": chk.seed * 13 + 5, "per_template": 6 if quick else 40, "max_problems": 140 if quick else 900,
            "scales": [10, 100] if quick else [10, 100, 10000], "per_shard": 16, "fuel": 3000000}
     index, failing = run_mgen(chk, "iters", cfg, None, script="c16_gen.py")
@@ -37,7 +37,8 @@ def run(chk):
         return
     for meta, verdict in failing:
         chk.violation(f"executed loop iterations depend on the size of a dimension that is stored only in compressed levels: {verdict}",
-                      {k: meta[k] for k in ("assignment", "formats", "index", "sizes", "scale", "inputs", "shard", "case_index")} | {"machine_verdict": verdict})
+                      {k: meta[k] for k in ("assignment", "formats", "index", "sizes", "scale", "inputs", "shard", "case_index")}
+                      | {"machine_verdict": verdict, "kernels": "evaluate" if meta.get("kind") == "iters" else "assemble; compute on one output"})
     for sh in index["shards"][:1]:
         for m in sh["cases"][:2]:
             chk.sample({k: m[k] for k in ("assignment", "formats", "index", "sizes", "scale")})
